@@ -58,8 +58,21 @@ Pts2 == {P1, P2}
 Pts3 == {P1, P2, P3}
 PtsFrac == {P3}
 CF1 == [s \in AllSpecies |-> CASE s = "A" -> Q(23) [] s = "B" -> Q(29) [] s = "C" -> Q(31) [] s = "D" -> Q(37)]
-Fd1 == { [F |-> Q(19), cf |-> CF1] }
-Fd2 == { [F |-> Q(19), cf |-> CF1], [F |-> <<1, 2>>, cf |-> P2] }
+Fd1 == { [F |-> Q(19), cf |-> CF1, kind |-> "all"] }
+Fd2 == { [F |-> Q(19), cf |-> CF1, kind |-> "all"], [F |-> <<1, 2>>, cf |-> P2, kind |-> "rev"] }
+\* the caller's substance -> feed-key mapping: builder default, system order, reversed, a reversed subset
+FdKinds == { [F |-> Q(19), cf |-> CF1, kind |-> kd] : kd \in {"all", "map", "rev", "sub"} }
+FdRev == { [F |-> Q(19), cf |-> CF1, kind |-> "rev"] }
+FdMaps == { [F |-> Q(19), cf |-> CF1, kind |-> kd] : kd \in {"rev", "sub"} }
+PhZero == [s \in AllSpecies |-> 0]
+PhMixed == [s \in AllSpecies |-> CASE s = "A" -> 1 [] s = "B" -> 0 [] s = "C" -> 2 [] s = "D" -> 0]
+PhSolid == [s \in AllSpecies |-> 1]
+Ph1 == {PhZero}
+Ph2 == {PhZero, PhMixed}
+PhNonzero == {PhMixed, PhSolid}
+Ph3 == {PhZero, PhMixed, PhSolid}
+ReK == {Q(41), Q(43)}
+NoReK == {}
 NoFeeds == {}
 
 OrdOne == { <<"C", "A", "D", "B">> }
